@@ -16,12 +16,24 @@ from .ops import is_const, truthy, z3bool
 
 
 class Closure:
-    """nested def / lambda: executed inline at call sites (captures the defining env)."""
+    """nested def / lambda: executed inline at call sites (captures the defining env).
+    Two closures compare equal when their source is identical (used by decision-table contracts that
+    pin e.g. `include=lambda g: len(g)`); captured variables are not compared."""
 
     def __init__(self, node, env, name=None):
         self.node = node
         self.env = env
         self.name = name or getattr(node, "name", "<lambda>")
+        self.src = ast.unparse(node)
+
+    def __eq__(self, o):
+        return isinstance(o, Closure) and ast.dump(o.node) == ast.dump(self.node)
+
+    def __hash__(self):
+        return hash(ast.dump(self.node))
+
+    def __repr__(self):
+        return f"<closure {self.src[:60]}>"
 
 
 class LambdaTag:
@@ -323,10 +335,19 @@ class ExprMixin:
             cs = self.class_of(recv.ty)
             if name in cs.derived:
                 return cs.derived[name](self, st, recv)
-            if name in cs.fields or (cs.dynamic and (cs.name, name) in st.heap):
+            if name in cs.fields or (cs.dynamic and (cs.name, name) in st.heap) or (str(recv.term), name) in st.pyheap:
                 return self.read_field(st, recv, name)
             if self.find_method(cs, name) is not None:
                 return Val.obj(BoundMethod(recv, name))
+            if cs.repo:
+                # class-level constant of the real class (e.g. MAX_GLYPH_NAME_LENGTH)
+                import importlib
+
+                mod, qn = cs.repo.split(":")
+                pycls = getattr(importlib.import_module(mod), qn)
+                for k in pycls.__mro__:
+                    if name in k.__dict__ and not callable(k.__dict__[name]) and not isinstance(k.__dict__[name], (property, staticmethod, classmethod)):
+                        return self.wrap_py(k.__dict__[name], name)
             raise Unsupported(f"attribute {cs.name}.{name} is not declared in the contract vocabulary", node)
         if isinstance(recv.ty, T.Named) and name in recv.ty.names and not recv.is_py:
             k = recv.ty.names.index(name)
